@@ -63,6 +63,7 @@ class World {
         else if (key === 'p') v = label + '.p'
         else if (key === 'length') v = 3
         else if (key === 'nil') v = null
+        else if (key === 'tag') v = w.fn(label + '.tag', 'TAGGED')
         else if (key === 'arr') v = ['oa1', 'oa2']
         else v = undefined
         cache.set(key, v)
